@@ -273,6 +273,13 @@ public:
         for (const QString &entry : entries) {
             const auto match = re.match(entry);
             if (match.hasMatch()) {
+                // The uncompressed file is removed only once its ".gz" is complete. If both exist,
+                // the compression was interrupted: the ".gz" is a partial copy, not a rotated file
+                // of its own - it must neither use up a slot nor outlive the intact original
+                if (!match.captured(3).isEmpty()
+                    && entries.contains(entry.left(entry.size() - match.captured(3).size()))) {
+                    continue;
+                }
                 const auto path = dir.filePath(entry);
                 files.append({ path, QFileInfo(path).lastModified(), match.captured(1),
                                match.captured(2).toInt() });
@@ -309,6 +316,9 @@ public:
             if (!QFile::remove(oldestFile)) {
                 std::cerr << "RotatingFileSink: Failed to remove old log file: "
                           << oldestFile.toStdString() << std::endl;
+            } else if (!oldestFile.endsWith(QStringLiteral(".gz"))) {
+                // a partial compressed copy left by an interrupted compression goes with it
+                QFile::remove(oldestFile + QStringLiteral(".gz"));
             }
             rotatedFiles.removeFirst();
         }
